@@ -90,6 +90,7 @@ func pauseApply(i, on int) Event   { return Event{Kind: EvPauseApply, Node: uint
 func appendStep(i int) Event       { return Event{Kind: EvAppend, Node: uint8(i)} }
 func pauseReady(i, on int) Event   { return Event{Kind: EvPauseReady, Node: uint8(i), Arg: uint16(on)} }
 func holdFrom(i int) Event         { return Event{Kind: EvHoldFrom, Node: uint8(i)} }
+func holdTo(i, j int) Event        { return Event{Kind: EvHoldFrom, Node: uint8(i), Peer: uint8(j)} } // only messages from i to j
 func flush() Event                 { return Event{Kind: EvFlush} }
 func deliverHeld(i, j int) Event   { return Event{Kind: EvDeliverHeld, Node: uint8(i), Peer: uint8(j)} }
 func sendSnap(i, j int) Event      { return Event{Kind: EvSendSnap, Node: uint8(i), Peer: uint8(j)} }
@@ -264,6 +265,15 @@ func scriptSnapshotRestart() []Event {
 // can be on their way to the same follower (the first one delayed).
 func scriptSnapshotTwice() []Event {
 	return seq(camp(1), prop(1), isolate(3), prop(1), compact(1, 0), heal(), tick(1), prop(1), prop(1), compact(1, 0), reportSnap(1, 3, 1), tick(1), prop(1), tick(1), prop(1))
+}
+
+// scriptSnapshotOvertakes: node 3's append thread is stalled with a first snapshot queued when a
+// second, newer snapshot arrives and is queued behind it; the thread then resumes, so the
+// acknowledgement of the first snapshot reaches raft while the second is still in progress.
+func scriptSnapshotOvertakes() []Event {
+	d13 := deliverHeld(1, 3)
+	return seq(camp(1), prop(1), isolate(3), prop(1), prop(1), compact(1, 0), heal(), holdTo(1, 3), prop(1), d13 /* probe, rejected */, pauseAppend(3, 1), d13, /* first snapshot, queued */
+		prop(1), prop(1), compact(1, 0), sendSnap(1, 3), d13, d13, d13, d13 /* second snapshot queued behind it */, pauseAppend(3, 0), prop(1), flush(), prop(1))
 }
 
 // scriptSnapshotDivergent: the follower that needs a snapshot is a deposed leader
@@ -627,6 +637,14 @@ func scriptCheckQuorumLease() []Event {
 	return seq(ticks(1, 3), prop(1), roundTicks(3, 1), camp(3), isolate(1), ticks(1, 3), ticks(1, 3), ticks(2, 4), heal(), roundTicks(3, 2), prop(2), xfer(2, 3), roundTicks(3, 2))
 }
 
+// scriptLateSameTermVote: node 5 campaigns for term 1 but its requests are held back; node 1
+// wins term 1 with nodes 2 and 3 while node 4 is cut off; node 4 then learns of the leader from
+// a heartbeat only (it has not voted in term 1 and holds no entry of that term) and, well within
+// its lease, receives node 5's stale same-term request.
+func scriptLateSameTermVote() []Event {
+	return seq(holdFrom(5), camp(5), cut(1, 4), camp(1), heal(), holdTo(1, 4), tick(1), deliverHeld(1, 4), tick(4), deliverHeld(5, 4), tick(4), flush(), roundTicks(5, 1), prop(1))
+}
+
 // scriptCheckQuorumReports: the leader is cut off; its transport keeps reporting the peers
 // unreachable (and a snapshot failure, and a transfer request arrives) – local reports about a
 // peer are not contact with that peer.
@@ -696,6 +714,12 @@ func poolSafety(tier string) (p pool) {
 	for _, f := range []feat{{nofwd: true}, {nofwd: true, async: true}} {
 		p.dd = append(p.dd, ddScn("no-forwarding", 3, ids(3), f,
 			seq(camp(1), prop(2), prop(1), prop(3), isolate(1), camp(2), prop(1), prop(3), prop(2), heal(), prop(1), prop(3), prop(2)), k, defaultFaults...))
+	}
+	// a leadership transfer to a cut-off node times out; the leader carries on
+	for _, f := range []feat{syncF, asyncF} {
+		tt := tickSc("transfer-timeout", 3, f, seq(ticks(1, 3), prop(1), isolate(3), prop(1), xfer(1, 3), prop(1), ticks(1, 4), prop(1), heal(), prop(1), ticks(1, 1), prop(2)), k, int(BTick), 1, int(BDrop), 1, int(BDup), 1)
+		tt.TickNodes = []uint8{1}
+		p.dd = append(p.dd, tt)
 	}
 	// real aliasing between the unstable log and batches already handed out (replay-based, no clones)
 	for steps := 3; steps <= 6; steps++ {
@@ -838,6 +862,9 @@ func poolSnapshot(tier string) (p pool) {
 			cb.NoClone = true
 			p.dd = append(p.dd, cb)
 		}
+		if f.async {
+			p.dd = append(p.dd, ddScn("snapshot-overtakes", 3, ids(3), f, scriptSnapshotOvertakes(), k, fl...))
+		}
 		p.dd = append(p.dd, ddScn("manual-snapshot-divergent", 3, ids(3), f, scriptManualSnapshotDivergent(), k, fl...))
 		{
 			se := tickSnap(ddScn("snapshot+entries", 3, ids(3), f, scriptSnapshotPlusEntries(), k, int(BDrop), 1, int(BDup), 1, int(BCrash), 1))
@@ -929,6 +956,11 @@ func poolRead(tier string) (p pool) {
 		rl := ddScn("read-removed-leader", 2, ids(2), f, scriptReadRemovedLeader(), k, int(BRead), 1, int(BDrop), 1, int(BPropose), 1)
 		rl.ConfMenu = []ConfSpec{{Changes: "r1"}}
 		p.dd = append(p.dd, rl)
+		// the leader demotes itself to a learner, leaving one voter: it keeps leading (and has a
+		// progress entry) but is not the sole voter
+		dl := ddScn("read-demoted-leader", 2, ids(2), f, seq(camp(1), prop(1), read(1), conf(1, 0), prop(2), read(1), isolate(1), camp(2), prop(2), read(1), heal(), read(1), read(2)), k, int(BRead), 1, int(BDrop), 1, int(BPropose), 1)
+		dl.ConfMenu = []ConfSpec{{Changes: "l1"}}
+		p.dd = append(p.dd, dl)
 	}
 	for _, f := range []feat{syncF, asyncF} {
 		p.bfs = append(p.bfs, bfsRead(f, 2, int(BCampaign), 1, int(BPropose), 1), bfsRead(f, 2, int(BDrop), 1, int(BCampaign), 1))
@@ -1001,6 +1033,9 @@ func poolTick(tier string) (p pool) {
 			tickSc("prevote-rejoin", 3, f, scriptPrevoteRejoin(), k, tb...),
 			tickSc("checkquorum-lease", 3, f, scriptCheckQuorumLease(), k, tb...),
 		)
+	}
+	for _, f := range []feat{cqF, pvcqF} {
+		p.dd = append(p.dd, tickSc("late-same-term-vote", 5, f, scriptLateSameTermVote(), k, tb...))
 	}
 	for _, f := range []feat{cqF, pvcqF} {
 		p.dd = append(p.dd, tickSc("checkquorum-reports", 3, f, scriptCheckQuorumReports(), k, tb...))
